@@ -39,4 +39,5 @@ pub mod oracle;
 pub mod transport;
 pub mod tree;
 pub mod drive;
+pub mod corpus;
 pub mod props;
